@@ -10,6 +10,7 @@ From Coq Require Import Reals Lra List.
 From D3 Require Import Base.Ops Base.Vec Base.RVec Base.RVec2 Spec.Convex Spec.Prims Model.DistPrim
   Proofs.DistBase Proofs.DistPoint Proofs.DistRect
   Proofs.DistTriangle Proofs.DistRound Proofs.DistLine Proofs.DistPlane Proofs.DistPlaneHull Model.DistPrimComb Proofs.DistComb.
+From D3 Require Spec.Shapes Proofs.DistPlaneRound.
 Local Open Scope R_scope.
 (* [exists d c1 c2, f args = (d, c1, c2) /\ _]: name the components of the model's result *)
 Ltac ex3 := match goal with |- exists d c1 c2, ?e = _ /\ _ =>
@@ -349,3 +350,35 @@ Example C10_rectangle_to_box_nonvacuous :
     rectangle_to_box rc a0 a1 l0 l1 T sz eps = (d, p1, p2) /\ d < max_float /\
     feasible (rectangle_set rc a0 a1 l0 l1) (box_of T sz) d p1 p2.
 Proof. exact rectangle_to_box_nonvacuous. Qed.
+
+(** plane_to_ellipsoid / plane_to_cylinder: [plane_to_points] on the two support points along -n and +n (support functions of
+    Model/Support.v, proved extreme in Proofs/SupportA.v, SupportB.v by team member shapes); sets of Spec/Prims.v *)
+Theorem C10_plane_to_ellipsoid (pp pn : V3R) (T : Pose R) (radii : V3R) d c1 c2 arm :
+  dot pn pn = 1 -> 0 < vx radii -> 0 < vy radii -> 0 < vz radii ->
+  DistPrimComb.plane_to_ellipsoid pp pn T radii = (d, c1, c2, arm) ->
+  feasible (plane_set pp pn) (ellipsoid_of T radii) d c1 c2.
+Proof. exact (DistPlaneRound.plane_to_ellipsoid_feasible_prims pp pn T radii d c1 c2 arm). Qed.
+Print Assumptions C10_plane_to_ellipsoid.
+Example C10_plane_to_ellipsoid_nonvacuous :
+  let pp : V3R := V 0 0 0 in let pn : V3R := V 0 0 1 in
+  let T : Pose R := P ident (V 0 0 3) in let radii : V3R := V 2 3 1 in
+  dot pn pn = 1 /\ is_rotation (rot T) /\ 0 < vx radii /\ 0 < vy radii /\ 0 < vz radii /\
+  DistPrimComb.plane_to_ellipsoid pp pn T radii = (2, V 0 0 0, V 0 0 2, 1%nat) /\
+  feasible (plane_set pp pn) (Shapes.ellipsoid_set T radii) 2 (V 0 0 0) (V 0 0 2) /\
+  optimal (plane_set pp pn) (Shapes.ellipsoid_set T radii) 2.
+Proof. exact DistPlaneRound.plane_to_ellipsoid_nonvacuous. Qed.
+
+Theorem C10_plane_to_cylinder (pp pn : V3R) (T : Pose R) (r l : R) d c1 c2 arm :
+  dot pn pn = 1 -> 0 <= r -> 0 <= l ->
+  DistPrimComb.plane_to_cylinder pp pn T r l = (d, c1, c2, arm) ->
+  feasible (plane_set pp pn) (cylinder_of T r l) d c1 c2.
+Proof. exact (DistPlaneRound.plane_to_cylinder_feasible_prims pp pn T r l d c1 c2 arm). Qed.
+Print Assumptions C10_plane_to_cylinder.
+Example C10_plane_to_cylinder_nonvacuous :
+  let pp : V3R := V 0 0 0 in let pn : V3R := V 0 0 1 in
+  let T : Pose R := P ident (V 0 0 3) in
+  dot pn pn = 1 /\ is_rotation (rot T) /\ 0 <= 1 /\ 0 <= 2 /\
+  DistPrimComb.plane_to_cylinder pp pn T 1 2 = (2, V 1 0 0, V 1 0 2, 1%nat) /\
+  feasible (plane_set pp pn) (Shapes.cylinder_set T 1 2) 2 (V 1 0 0) (V 1 0 2) /\
+  optimal (plane_set pp pn) (Shapes.cylinder_set T 1 2) 2.
+Proof. exact DistPlaneRound.plane_to_cylinder_nonvacuous. Qed.
